@@ -53,6 +53,7 @@
 */
 
 #include <stdio.h>
+#include <stdlib.h>
 #include <string.h>
 
 #include "d_string.h"
@@ -202,19 +203,24 @@ void mmd_transclude_source(DString * source, const char * search_path, const cha
 				}
 			}
 
-			// Prevent infinite recursive loops
+			// Prevent infinite recursive loops -- compare resolved paths, since the
+			// same file can be reached under many names ("./a.txt", "sub/../a.txt")
+			// (NULL if the file does not exist)
+			char * resolved = realpath(file_path->str, NULL);
+
 			for (int i = 0; i < stack_depth; ++i) {
 				temp = stack_peek_index(parse_stack, i);
 
-				if (strcmp(file_path->str, temp) == 0) {
+				if (strcmp(resolved ? resolved : file_path->str, temp) == 0) {
 					// We have parsed this file already, don't recurse infinitely
 					last_match += 2;
+					free(resolved);
 					goto finish_file;
 				}
 			}
 
 			// Add this file to stack
-			stack_push(parse_stack, file_path->str);
+			stack_push(parse_stack, resolved ? resolved : file_path->str);
 
 			// Add file to the manifest?
 			if (manifest) {
@@ -270,6 +276,7 @@ void mmd_transclude_source(DString * source, const char * search_path, const cha
 
 			// Remove this file from stack
 			stack_pop(parse_stack);
+			free(resolved);
 
 finish_file:
 			d_string_free(file_path, true);
